@@ -377,7 +377,9 @@ func cmdCheck(args []string) int {
 			if status != "reproduced" {
 				unconfirmed = append(unconfirmed, *v)
 				fmt.Printf("UNCONFIRMED property=%s harness=%s %s %s: native replay says %q (%s)\n", prop, v.Harness, v.Kind, v.ID, out, status)
-				os.Remove(wpath)
+				if os.Getenv("VF_KEEP") == "" {
+					os.Remove(wpath)
+				}
 				continue
 			}
 			confirmedKey[v.Kind+"|"+v.ID] = true
